@@ -30,15 +30,23 @@ type histWorld struct {
 	nm      map[string]string
 	valid   map[int][]byte
 	garbage map[int][]byte
+	twin    []byte
+}
+
+// smallTwin has the fields of zoo.Small in the other order; encoded under the
+// wire name of Small it yields a legal stream whose definition lists n before name.
+type smallTwin struct {
+	N    int32
+	Name string
 }
 
 func newHistWorld() *histWorld {
 	w := &histWorld{p: &zoo.Small{Name: "shared", N: 5}}
 	w.vals = map[int]interface{}{1: "scalar", 2: zoo.Small{Name: "a", N: 1}, 3: w.p,
-		4: &pairP{Tag: "t", P: w.p, L: []int32{1, 2, 3}}}
+		4: &pairP{Tag: "t", P: w.p, L: []int32{1, 2, 3}}, 5: []string{}, 6: []*zoo.Small{w.p, w.p}}
 	w.bad = map[int]interface{}{2: []interface{}{zoo.Small{Name: "x"}, make(chan int)},
 		4: []interface{}{&pairP{P: w.p}, "s", func() {}}}
-	w.tm, w.nm = hessian.ExtractTypeNameMap([]interface{}{w.vals[2], w.vals[4]})
+	w.tm, w.nm = hessian.ExtractTypeNameMap([]interface{}{w.vals[2], w.vals[4], w.vals[5], w.vals[6]})
 	w.valid, w.garbage = map[int][]byte{}, map[int][]byte{}
 	for i, v := range w.vals {
 		b, _ := hessian.ToBytes(v, w.nm)
@@ -49,20 +57,25 @@ func newHistWorld() *histWorld {
 		}
 		w.garbage[i] = g
 	}
+	// the same classes as a peer with another field order would define them (probe inputs only)
+	tnm := map[string]string{"smallTwin": w.nm["Small"], "[]hx.smallTwin": "[x"}
+	tb, _ := hessian.ToBytes([]interface{}{smallTwin{N: 7, Name: "twin"}, smallTwin{N: 8, Name: "twin2"}}, tnm)
+	w.twin = tb
 	return w
 }
 
 func (w *histWorld) snapshot() (proj.M, [][]int, []string) {
 	P := proj.New(w.nm)
 	all := []interface{}{}
-	for i := 1; i <= 4; i++ {
+	for i := 1; i <= 6; i++ {
 		all = append(all, w.vals[i])
 	}
 	all = append(all, w.bad[2], w.bad[4])
 	bs := [][]int{}
-	for i := 1; i <= 4; i++ {
+	for i := 1; i <= 6; i++ {
 		bs = append(bs, proj.Octets(w.valid[i]), proj.Octets(w.garbage[i]))
 	}
+	bs = append(bs, proj.Octets(w.twin))
 	ms := []string{}
 	for k, v := range w.nm {
 		ms = append(ms, "n:"+k+"="+v)
@@ -275,20 +288,33 @@ func runHist(vectors, out string, shards, only int) {
 			}
 			w := newHistWorld()
 			vb, bb, mb := w.snapshot()
-			used := newHistInstance(kind, w)
-			for _, op := range vec.H {
-				used.apply(op)
+			// every probe gets its own used instance (the history is replayed for it), so that one
+			// probe cannot repair what the history left behind before the next probe looks
+			mkUsed := func() *histInstance {
+				u := newHistInstance(kind, w)
+				for _, op := range vec.H {
+					u.apply(op)
+				}
+				return u
 			}
 			probes := []proj.M{}
-			for pv := 1; pv <= 4; pv++ {
+			{
+				// a stream whose definition of Small lists the fields in the other order
+				P := proj.New(w.nm)
+				pu := mkUsed().probe(w.vals[1], w.twin)
+				pf := newHistInstance(kind, w).probe(w.vals[1], w.twin)
+				probes = append(probes, proj.M{"eu": proj.Octets(pu.out), "ef": proj.Octets(pf.out), "eerru": pu.eerr, "eerrf": pf.eerr,
+					"du": P.Project(pu.r).JSON(), "df": P.Project(pf.r).JSON(), "derru": pu.derr, "derrf": pf.derr})
+			}
+			for pv := 1; pv <= 6; pv++ {
 				fresh := newHistInstance(kind, w)
 				P := proj.New(w.nm)
-				pu := used.probe(w.vals[pv], w.valid[pv])
+				pu := mkUsed().probe(w.vals[pv], w.valid[pv])
 				pf := fresh.probe(w.vals[pv], w.valid[pv])
 				probes = append(probes, proj.M{"eu": proj.Octets(pu.out), "ef": proj.Octets(pf.out), "eerru": pu.eerr, "eerrf": pf.eerr,
 					"du": P.Project(pu.r).JSON(), "df": P.Project(pf.r).JSON(), "derru": pu.derr, "derrf": pf.derr})
 				// a failing probe: garbage in, error-ness must agree as well
-				gu := used.probe(w.bad[2], w.garbage[pv])
+				gu := mkUsed().probe(w.bad[2], w.garbage[pv])
 				gf := newHistInstance(kind, w).probe(w.bad[2], w.garbage[pv])
 				probes = append(probes, proj.M{"eu": []int{}, "ef": []int{}, "eerru": gu.eerr, "eerrf": gf.eerr,
 					"du": P.Project(gu.r).JSON(), "df": P.Project(gf.r).JSON(), "derru": gu.derr, "derrf": gf.derr})
@@ -303,7 +329,7 @@ func runHist(vectors, out string, shards, only int) {
 		}
 	}
 	s := proj.M{"evaluations": n, "traces": n, "distinct_nontrivial": n, "samples": samples, "longest_history": maxlen,
-		"family_rule": "every history of HApi up to the enumeration bound (TLC) and simulated longer ones, replayed on an Encoder, a Decoder and a Serializer; then 8 probes (4 values ok + 4 failing) on the used and on a fresh instance; distinct = distinct (history, kind)"}
+		"family_rule": "every history of HApi up to the enumeration bound (TLC) and simulated longer ones, replayed on an Encoder, a Decoder and a Serializer; then 13 probes (6 values ok + 6 failing + a stream with a permuted class definition) on the used and on a fresh instance; distinct = distinct (history, kind)"}
 	b, _ := json.Marshal(s)
 	os.WriteFile(out+"/summary.json", b, 0o644)
 }
